@@ -72,8 +72,9 @@ TCClose == IsEvent("cl.close") /\ ~cclosed[E.c] /\ cclosed' = [cclosed EXCEPT ![
              /\ UNCHANGED <<svars, serveRunning, accepting, open, ph, mark, inmap, netClosed, tout, wire, buf, sent, nstart, unflushed, delivered, lost>>
 \* Accept of listener E.l returned connection E.c (logged by the listener before it hands the connection over)
 TTake == IsEvent("ln.accept") /\ AcceptTake(E.ln, E.c)
-TAccept == IsEvent("srv.open.inc") /\ \/ E.i = 0 /\ \E x \in Listeners : accepting[x] = E.c /\ AcceptCount(x)
-                                     \/ E.i = 1 /\ ScAdmit(E.c)      \* ServeConn admitted it
+TAccept == /\ IsEvent("srv.open.inc")
+           /\ \/ (E.i = 0 /\ \E x \in Listeners : (accepting[x] = E.c /\ AcceptCount(x)))
+              \/ (E.i = 1 /\ ScAdmit(E.c))      \* ServeConn admitted it
 \* turned away for Server.Concurrency: by Serve (no worker; open--) / by ServeConn (open never counted)
 TServeReject == IsEvent("srv.reject") /\ ServeReject(E.c)
 TScReject == IsEvent("sc.reject") /\ ScReject(E.c)
